@@ -82,6 +82,12 @@ class Cover:
             if nm in env:
                 return dict(env[nm])
             return {nm: 1}
+        if k == "BinaryOperator" and e.get("opcode") == "-" and "*" in qtype(strip(kids(e)[0])) and "*" in qtype(strip(kids(e)[1])):
+            # distance between two pointers into the destination (`return out - ptr;`)
+            oa, ob = self.dest_offset(kids(e)[0], env), self.dest_offset(kids(e)[1], env)
+            if oa is not None and ob is not None:
+                return lin_add(oa, ob, -1)
+            raise Unknown("pointer difference %s" % expr_str(e))
         if k == "BinaryOperator" and e.get("opcode") in ("+", "-"):
             a, b = self.lin(kids(e)[0], env), self.lin(kids(e)[1], env)
             return lin_add(a, b, 1 if e["opcode"] == "+" else -1)
@@ -444,8 +450,18 @@ class Cover:
             if l.get("kind") != "ArraySubscriptExpr":
                 return None
             off = self.dest_offset(kids(l)[0], st["env"])
-            if off is None or ref_name(strip(kids(l)[1], casts=True)) != iv:
+            if off is None:
                 return None
+            # the subscript is the loop index, possibly plus something the loop does not change (`buf[written + i]`)
+            env_i = dict(st["env"])
+            env_i.pop(iv, None)
+            idx = self.lin(kids(l)[1], env_i)
+            if idx.get(iv) != 1:
+                return None
+            K = {k_: v_ for k_, v_ in idx.items() if k_ != iv}
+            if any(k_ in self._modified(body) for k_ in K if k_):
+                return None
+            off = lin_add(off, K)
         except Unknown:
             return None
         # writes [off + A, off + B)
